@@ -407,3 +407,11 @@ PROPS["C01"]["level_note"] += "; the soft-max/cross-entropy clause uses the symb
 
 PROPS["C03"]["record"] = [{"group": "optslots", "trace_module": "Trace_Opt"}]
 PROPS["C03"]["technique"] += " + TLC validation of the slot addressing of real training runs (Trace_Opt / OptSlots.tla)"
+
+LAYER_TERMS = {"module": "MC_LayerTerms",
+               "consts": {"quick": {"Acts": '{"leaky", "sigmoid", "tanh"}', "CfgSel": "{1, 2, 3, 4, 5, 6, 7, 8, 9}"},
+                          "thorough": {"Acts": '{"relu", "leaky", "sigmoid", "tanh", "linear"}', "CfgSel": "{1, 2, 3, 4, 5, 6, 7, 8, 9}"}},
+               "workers": 8, "stack": "1g", "coverage": False}
+PROPS["C01"]["mc"].append(LAYER_TERMS)
+PROPS["C02"]["mc"].append(LAYER_TERMS)
+PROPS["C01"]["level_note"] += "; smooth and leaky activations composed with the layer structure are checked in term mode on a 9-entry configuration menu (symbolic forward from the same tap formulas, gradients by the symbolic differentiator, 1e-4)"
